@@ -373,12 +373,18 @@ func TestC15Inbound(t *testing.T) {
 			}
 		}
 		frames, stream, _ := finishMasking(frames, mode.Client)
+		// servers: a client that does not wait for the 101 - the first bytes of what it sends (a Ping, in
+		// the closeRead cases and often otherwise) arrive in the segment of the handshake request
+		early := 0
+		if !mode.Client && len(stream) > 0 && rapid.IntRange(0, 2).Draw(rt, "earlyData") == 0 {
+			early = min(len(stream), rapid.SampledFrom([]int{1, 2, 7, 40, 1 << 20}).Draw(rt, "earlyBytes"))
+		}
 		var fail string
 		rapid.SyncTest(rt, func(rt *rapid.T) {
 			e := newEnv(rt)
 			defer e.Teardown()
 			// (servers: the hijacked bufio.Reader may be smaller than a control frame's payload)
-			lc, err := e.open(connSpec{Client: mode.Client, Mode: mode.Mode, Ext: mode.Ext, ReaderSize: []int{0, 0, 16, 64, 127}[caseNo%5]})
+			lc, err := e.open(connSpec{Client: mode.Client, Mode: mode.Mode, Ext: mode.Ext, ReaderSize: []int{0, 0, 16, 64, 127}[caseNo%5], Pipelined: stream[:early]})
 			if err != nil {
 				fail = "handshake: " + err.Error()
 				return
@@ -419,7 +425,7 @@ func TestC15Inbound(t *testing.T) {
 					wrote = append(wrote, m)
 				}
 			})
-			lc.End.Write(stream)
+			lc.End.Write(stream[early:])
 			if closeRead {
 				e.sleep(2 * time.Second)
 				lc.End.CloseWrite(nil)
@@ -491,7 +497,7 @@ func TestC15Inbound(t *testing.T) {
 				rec.Class(fmt.Sprintf("ping-len-seen:%03d", len(f.Payload)), 1)
 			}
 		}
-		rec.Case(inside || closeRead, fmt.Sprintf("in|%s|%v|%v|%s|%d", mode.Name, closeRead, slowProducer, lens, len(frames)), "inbound", fmt.Sprintf("inbound-closeread:%v", closeRead), fmt.Sprintf("inbound-application-writer-idle-with-a-message-open:%v", slowProducer), map[bool]string{true: "inbound-idle-writer-wrote-more-than-the-write-buffer-holds"}[slowProducer && slowFirst > 4096])
+		rec.Case(inside || closeRead, fmt.Sprintf("in|%s|%v|%v|%s|%d", mode.Name, closeRead, slowProducer, lens, len(frames)), "inbound", fmt.Sprintf("inbound-closeread:%v", closeRead), fmt.Sprintf("inbound-application-writer-idle-with-a-message-open:%v", slowProducer), map[bool]string{true: "inbound-first-bytes-in-the-segment-of-the-handshake-request"}[early > 0], map[bool]string{true: "inbound-idle-writer-wrote-more-than-the-write-buffer-holds"}[slowProducer && slowFirst > 4096])
 		if fail != "" {
 			rt.Fatalf("C15 inbound mode=%s closeRead=%v slowProducer=%v/%d: %s", mode.Name, closeRead, slowProducer, slowFirst, fail)
 		}
